@@ -573,8 +573,15 @@ impl Shape {
                             return other.clone();
                         }
                     }
+                    // Record the pair before expanding it. Meeting it again while
+                    // it is still being narrowed means the constraints are mutually
+                    // recursive; assume compatibility there instead of recursing forever.
+                    let idx = seen.len();
+                    seen.push((cref.val.clone(), other.clone(), other.clone()));
                     let result = other.narrow_cached(&expanded, symbol_table, seen);
-                    seen.push((cref.val.clone(), other.clone(), result.clone()));
+                    if let Some(entry) = seen.get_mut(idx) {
+                        entry.2 = result.clone();
+                    }
                     result
                 } else {
                     Shape::TypeErr(
